@@ -111,9 +111,12 @@ type Hist struct {
 	// are held for HoldMs (> 1000: at least one heartbeat falls into the hold)
 	HeartbeatErr bool
 	HoldMs       int
-	PushEvents   bool // the node pushes EVENT frames (stream -1) on the pool connection while requests are outstanding
-	IdleMs       int  // stay idle this long before quiescence (> 1000: the heartbeat's OPTIONS exec appears in the logs)
-	Handshake    int  // 0: normal; 1: node never answers STARTUP; 2: node closes during the handshake; 3: cut mid-header of SUPPORTED
+	// CancelInBuild requests on the non-coalescing writer end their own context inside frame building (after
+	// exec's entry check, before writeContext); then a plain request must complete and Conn.Close must unblock
+	CancelInBuild int
+	PushEvents    bool // the node pushes EVENT frames (stream -1) on the pool connection while requests are outstanding
+	IdleMs        int  // stay idle this long before quiescence (> 1000: the heartbeat's OPTIONS exec appears in the logs)
+	Handshake     int  // 0: normal; 1: node never answers STARTUP; 2: node closes during the handshake; 3: cut mid-header of SUPPORTED
 }
 
 func (h *Hist) wd() time.Duration {
@@ -567,6 +570,8 @@ func Run(h *Hist) *Report {
 		r.stallScenario(s, pool, rep, viol)
 	} else if h.CoalCancel {
 		r.coalCancelScenario(s, pool, rep, viol)
+	} else if h.CancelInBuild > 0 {
+		r.cancelInBuildScenario(s, pool, poolConn, rep, viol)
 	} else if h.TempErr {
 		r.tempErrScenario(s, pool, rep, viol)
 	} else if h.TimeoutLimit > 0 {
